@@ -182,22 +182,61 @@ func (f *forced) start(i int) {
 // waitFor waits for the next event of actor i; events of others (actors that
 // were blocked and got going) are kept for later.
 func (f *forced) waitFor(i int) (event, bool) {
+	e, ok, _ := f.waitOrDefer(i, false)
+	return e, ok
+}
+
+// waitOrDefer is waitFor, except that (with mayDefer) it gives up early when an
+// actor that was blocked on the output lock has meanwhile parked at a point
+// where it also holds the state mutex: actor i, on its way out of the region,
+// may then be waiting for that mutex (Serve reads the input context under it
+// at the top of its loop) and will only arrive once the other has moved on.
+func (f *forced) waitOrDefer(i int, mayDefer bool) (event, bool, bool) {
 	for k, e := range f.stash {
 		if e.actor == i {
 			f.stash = append(f.stash[:k], f.stash[k+1:]...)
-			return e, true
+			return e, true, false
 		}
 	}
 	deadline := time.Now().Add(watchdog)
+	var heldSince time.Time
 	for {
-		e, ok := f.c.next(time.Until(deadline))
-		if !ok {
-			return event{}, false
+		slice := time.Until(deadline)
+		if mayDefer && slice > 5*time.Millisecond {
+			slice = 5 * time.Millisecond
 		}
-		if e.actor == i {
-			return e, true
+		e, ok := f.c.next(slice)
+		if ok {
+			if e.actor == i {
+				return e, true, false
+			}
+			f.stash = append(f.stash, e)
+			if stateHeldPoint[e.point] && heldSince.IsZero() {
+				heldSince = time.Now()
+			}
+			continue
 		}
-		f.stash = append(f.stash, e)
+		if mayDefer && !heldSince.IsZero() && time.Since(heldSince) > 40*time.Millisecond {
+			return event{}, false, true
+		}
+		if time.Now().After(deadline) {
+			return event{}, false, false
+		}
+	}
+}
+
+// collectDeferred: the state mutex is free again; actors whose arrival was
+// deferred reach their yield point now (their step is already in the schedule).
+func (f *forced) collectDeferred() {
+	for i := range f.st {
+		if f.st[i].status == "deferred" && !f.aborted {
+			e, ok := f.waitFor(i)
+			if !ok {
+				f.stuck(i)
+				return
+			}
+			f.arrived(i, e)
+		}
 	}
 }
 
@@ -242,6 +281,9 @@ func (f *forced) arrived(i int, e event) {
 			case "senderror.locked":
 			}
 		}
+	}
+	if f.inside == -1 {
+		f.collectDeferred()
 	}
 	f.settleLock()
 }
@@ -401,7 +443,15 @@ func (f *forced) advance(i int) {
 		f.st[i].status = "blockedInput"
 		return
 	}
-	e, ok := f.waitFor(i)
+	e, ok, deferred := f.waitOrDefer(i, f.inside == i)
+	if deferred {
+		// i has left the region (another actor got the lock and is parked
+		// holding the state mutex); i arrives once that actor has moved on
+		f.st[i].status = "deferred"
+		f.inside, f.stateHeld = -1, false
+		f.settleLock()
+		return
+	}
 	if !ok {
 		f.stuck(i)
 		return
